@@ -146,6 +146,7 @@ var c08Hostile = []string{
 	"package", "import", "var", "type", "const", "type x struct {", "{", "}", "(", ")", "[", "]", "[]", "x...", "...x", "case", "default:",
 	"switch {", "select {", "for ... {", "for {", "if", "else", "go", "defer", "return ...", "chan", "<-", "map[", "interface {", "struct {",
 	"`", "\"", "'", "/*", "//", "*/", "\r", "\t", "var x identifier", "var x expression", "var x, x identifier", "var _ identifier",
+	"//line f.go:1", "/*line f.go:1:1*/", "var x /*line f.go:3:1*/ expression", "//line f.go:1\nvar x expression", "var x expression //line f.go:9", "/*line :1*/ var /*line :2*/ x /*line :3*/ expression", "//go:build x", "//line", "/*line*/",
 	"=>", "func f[", "func (...) f(", "func f(...) (...) {", ":=", "x: ", "goto", "fallthrough", "0x", "1e", "'\\", strings.Repeat("(", 200), strings.Repeat("x.", 300) + "x",
 }
 
